@@ -10,14 +10,15 @@ from harness.props.vbsutil import read_all, read_pattern, render_end
 PROP = 'C10'
 RULE = ("IPM files of n records (quick n <= 6, thorough n <= 40) x every position k in 1..n x fault kind {truncated record, "
         "oversized length, undecodable MTI, unknown bitmap bit, bad field length, bad typed value, bad PDS content, bad ICC "
-        "content} x {VBS, 1014} x {latin_1, cp500}, truncation at every byte of record k (n <= 6), records with space-padded elements, the reader consumed as one loop / next() then a loop / two loops / next() only: records 1..k-1 must be delivered, then MciIpmDataError with "
+        "content, record too short for MTI + bitmap} x {VBS, 1014} x {latin_1, cp500}, truncation at every byte of record k (n <= 6), records with space-padded elements, the reader consumed as one loop / next() then a loop / two loops / next() only: records 1..k-1 must be delivered, then MciIpmDataError with "
         "record_number == k and the raw bytes of record k (length prefix included) as context; the operator report must "
         "name record k. Non-trivial = k > 1 or a message-level fault; distinct = distinct (n, k, kind, format, codec)")
 TRUSTED = c01.TRUSTED + ["Model/Vbs.lean `ipmReadAll` models IpmReader.__next__ (error wrapping with record number and "
                          "last_record), generic in the message decoder"]
 ASSUMPTIONS = c01.ASSUMPTIONS
 
-KINDS = ['truncated', 'oversized', 'badmti', 'unknownbit', 'badlen', 'badtyped', 'badpds', 'badicc']
+SHORT = [0]      # how many bitmap bytes the 'shortrec' record keeps (set per case)
+KINDS = ['truncated', 'oversized', 'badmti', 'unknownbit', 'badlen', 'badtyped', 'badpds', 'badicc', 'shortrec']
 
 
 def bm(bits):
@@ -48,6 +49,8 @@ def bad_record(kind, codec):
         return e('1240') + bm([4]) + e('00000000abcd')
     if kind == 'badpds':
         return e('1240') + bm([48]) + e('0090023xyz')
+    if kind == 'shortrec':       # a record too short to hold MTI + bitmap, with a perfectly numeric MTI
+        return (e('1240') + bm([2]))[:4 + SHORT[0]]
     if kind == 'badicc':
         return e('1240') + bm([55]) + e('003') + b'\x82\x00\x9a'
     return good_record(1, codec)
@@ -55,6 +58,7 @@ def bad_record(kind, codec):
 
 def build(case):
     codec, n, k, kind = case['codec'], case['n'], case['k'], case['kind']
+    SHORT[0] = case.get('keep', 0)
     recs = [good_record(i, codec) for i in range(n)]
     if kind not in ('truncated', 'oversized'):
         recs[k - 1] = bad_record(kind, codec)
@@ -142,6 +146,9 @@ def explore(run, tier):
                         if k >= 2 and (n, kind) in ((6, 'badlen'), (3, 'truncated'), (6, 'oversized'), (3, 'badmti')):
                             for pattern in ('next-for', 'two-loops', 'next-only'):
                                 cases.append(dict(c, pattern=pattern))
+                        if kind == 'shortrec':
+                            for keep in (1, 8, 15):
+                                cases.append(dict(c, keep=keep))
                         if kind == 'truncated' and n <= 6:
                             # every cut position inside record k (at least one byte of it survives, never all)
                             for cut in range(1, len(good_record(k - 1, codec))):
